@@ -935,6 +935,9 @@ func (fr *Frame) modularCall(x *ssa.Call, callee *ssa.Function, ord int) {
 		}
 		fr.assumeHere(and(pres...), "pre")
 	}
+	if p.sameSCC(fr.topFrame.fn, callee) {
+		fr.checkMeasure(x, callee, cc, vars, pre, tag)
+	}
 	mod := p.modset(callee)
 	if fr.e.typeInvTouches(p.modset(fr.topFrame.fn)) && fr.topFrame.fn != nil {
 		fr.oblige("typeinv", fmt.Sprintf("typeinv@call:%s", tag), []string{"*"}, fr.typeInvs(pre), "type invariants hold before the call", x.Pos(), "")
@@ -1526,4 +1529,51 @@ func (p *Program) instrDirty(ins ssa.Instruction, dirty map[string]bool, inside 
 			}
 		}
 	}
+}
+
+// ---- termination: measures of recursive functions ----------------------------------------------------------------
+
+// checkMeasure: a call that may lead back to the calling function (caller and callee lie on a cycle of the static call
+// graph) must strictly decrease the termination measure - a tuple of natural numbers ordered lexicographically, given by
+// the decreases clauses of the two contracts - evaluated for the callee in the state before the call and for the caller
+// at its own entry.
+func (fr *Frame) checkMeasure(x *ssa.Call, callee *ssa.Function, cc *FuncContract, vars map[string]TV, pre State, tag string) {
+	vc := fr.vc()
+	top := fr.topFrame
+	tc := top.contract
+	name := "measure:" + tag
+	if tc == nil || len(tc.Decreases) == 0 || cc == nil || len(cc.Decreases) == 0 {
+		fr.oblige("measure", name+"-missing", []string{"C03"}, "false", "caller and callee of a recursive call need decreases clauses", x.Pos(), "")
+		return
+	}
+	if len(tc.Decreases) != len(cc.Decreases) {
+		vc.addErr("%s: decreases tuples of %s and %s differ in length", fr.label, tc.Name, cc.Name)
+		return
+	}
+	env0 := &SpecEnv{vc: vc, vars: top.specVars, st: top.funcEntry, old: top.funcEntry, autoDeref: top.autoDeref}
+	env1 := &SpecEnv{vc: vc, vars: vars, st: pre, old: pre}
+	var m0, m1 []string
+	for i := range tc.Decreases {
+		a, err := env0.tr(tc.Decreases[i])
+		if err != nil || a.Ty.K != KInt {
+			vc.addErr("%s: decreases of %s: component %d: %v", fr.label, tc.Name, i, err)
+			return
+		}
+		b, err := env1.tr(cc.Decreases[i])
+		if err != nil || b.Ty.K != KInt {
+			vc.addErr("%s: decreases of %s (at call): component %d: %v", fr.label, cc.Name, i, err)
+			return
+		}
+		m0 = append(m0, a.T)
+		m1 = append(m1, b.T)
+	}
+	var nat []string
+	for _, b := range m1 {
+		nat = append(nat, "(<= 0 "+b+")")
+	}
+	less := "false"
+	for i := len(m0) - 1; i >= 0; i-- {
+		less = or("(< "+m1[i]+" "+m0[i]+")", and(eq(m1[i], m0[i]), less))
+	}
+	fr.oblige("measure", name, cc.DecrClause.Props, and(append(nat, less)...), "decreases "+cc.DecrClause.Src+" (callee) < decreases "+tc.DecrClause.Src+" (caller)", x.Pos(), "")
 }
